@@ -47,7 +47,9 @@ pub struct Arrangement {
     /// 3: b has a syntax error; 4: b has a lexical error;
     /// 5: as 0, and every directory holds a real file named `stdgates.inc` (a decoy that must
     /// never be read: the standard library is built in); 6: as 5, the decoy has a syntax error;
-    /// 7: as 0, and every directory that lacks one of the files holds a *directory* of that name
+    /// 7: as 0, and every directory that lacks one of the files holds a *directory* of that name;
+    /// 8: as 0, and every file ends with an annotation line (which belongs to whatever follows
+    /// the include)
     pub b_kind: u8,
 }
 
@@ -56,14 +58,17 @@ pub const FILES: [&str; 3] = ["a.inc", "b.inc", "c.inc"];
 fn content(f: usize, dir: usize, b_kind: u8) -> String {
     // the literal identifies the directory the file was taken from
     match f {
+        0 if b_kind == 8 => format!("int va = {};\nbit[2] ma;\n@tail a\n", 10 + dir),
         0 => format!("int va = {};\nbit[2] ma;\n", 10 + dir),
         1 => match b_kind {
+            8 => format!("int vb = {};\n@tail b 1\n@tail b 2\n", 20 + dir),
             0 | 5 | 6 | 7 => format!("int vb = {};\n", 20 + dir),
             1 => format!("int vb = {};\nint wb = va;\n", 20 + dir),
             3 => format!("int vb = ;\nint wb = {};\n", 20 + dir),
             4 => format!("int vb = 0b;\nint wb = {};\n", 20 + dir),
             _ => format!("include \"a.inc\";\nint vb = {};\n", 20 + dir),
         },
+        _ if b_kind == 8 => format!("include \"b.inc\";\nint vc = {};\n@tail c\n", 30 + dir),
         _ => format!("include \"b.inc\";\nint vc = {};\n", 30 + dir),
     }
 }
@@ -268,7 +273,7 @@ impl Configs {
                 presence.push((x % masks) as u8);
                 x /= masks;
             }
-            for b_kind in 0..8u8 {
+            for b_kind in 0..9u8 {
                 // kinds 1 to 4 only matter when b is present somewhere
                 if (1..=4).contains(&b_kind) && presence.get(1).copied().unwrap_or(0) == 0 {
                     continue;
